@@ -277,7 +277,7 @@ def point_case(rng, kind):
     c1 = Fraction(-w0 * g2 * float(v0))
     c2 = Fraction(p0 + w0 * g2 * float(v0) ** 2)
     if kind == "noroot":
-        c2 = Fraction(float(c2) * 0.8)
+        c2 = Fraction(float(c2) * 0.6)
     if kind == "gaveup":      # detonation rule, LHS negative on the whole of (0, tmin]: no bracket
         c2 = Fraction(float(c2) * 1.35)
     Tp = Fraction(float(T0) * (1 + rng.choice([-1, 1]) * rng.uniform(0.03, 0.2)))
@@ -437,6 +437,10 @@ def stub_correspondence(ctx, proved):
         except Exception as ex:                      # noqa: BLE001
             ctx.log("stub point case raised %r" % ex)
             continue
+        if kind == "noroot" and info.get("path") != "early":
+            continue                     # redraw: this kind must exercise the no-root return
+        if kind == "gaveup" and info.get("path") != "gaveup":
+            continue
         if goals is None or margin < 1e-6 or info.get("k", 0) > 6:
             ctx.count("point_case_skipped_small_margin", nontrivial=False)
             continue
@@ -481,6 +485,9 @@ MODELS = {
     "quartic1_u4": dict(kind="quartic", unit=1e-4, Tn=83.0e-4),
     # directed case only (Tn = 8.3e-7; was the finding "minimiser-absolute-xatol", fixed 12044cf)
     "quartic1_u8": dict(kind="quartic", unit=1e-8, Tn=83.0e-8, tier="recorded"),
+    # the EOM as PRODUCTION builds it: WallGoManager with Config() defaults (registerModel,
+    # setupThermodynamicsHydrodynamics, setupWallSolver -> buildGrid, buildEOM); end-to-end only
+    "manager_xSM": dict(kind="manager", Tn=100.0, tier="recorded"),
 }
 _CACHE = {}
 
@@ -494,6 +501,31 @@ def build_model(name):
     import WallGo
     cfg = MODELS[name]
     Tn = cfg["Tn"]
+    if cfg["kind"] == "manager":
+        import logging
+        from Models.SingletStandardModel_Z2.SingletStandardModel_Z2_Simple import (
+            SingletSM_Z2_Simple)
+        from tests.Benchmarks.SingletSM_Z2.Benchmarks_singlet import BM1
+        manager = WallGo.WallGoManager()
+        manager.setVerbosity(logging.ERROR)
+        model = SingletSM_Z2_Simple(BM1.inputParams)
+        model.defineParticles(False)
+        model.getEffectivePotential().effectivePotentialError = 1e-15
+        manager.registerModel(model)
+        manager.setupThermodynamicsHydrodynamics(
+            WallGo.PhaseInfo(temperature=Tn, phaseLocation1=BM1.expectedResults["phaseLocation1"],
+                             phaseLocation2=BM1.expectedResults["phaseLocation2"]),
+            WallGo.VeffDerivativeSettings(temperatureVariationScale=1.0,
+                                          fieldValueVariationScale=[1.0, 1.0]))
+        solver = manager.setupWallSolver(WallGo.WallSolverSettings(
+            bIncludeOffEquilibrium=False, meanFreePathScale=50.0, wallThicknessGuess=5.0))
+        eom = solver.eom
+        _CACHE[name] = (model.getEffectivePotential(), manager.thermodynamics,
+                        manager.hydrodynamics, eom.grid, eom, Tn, 2)
+        _CACHE[name + ":manager"] = manager
+        _CACHE[name + ":built_flags"] = dict(includeOffEq=eom.includeOffEq,
+                                             forceEnergyConservation=eom.forceEnergyConservation)
+        return _CACHE[name]
     if cfg["kind"] == "xsm":
         from Models.SingletStandardModel_Z2.SingletStandardModel_Z2_Simple import (
             SingletSM_Z2_Simple, EffectivePotentialxSM_Z2_Simple)
@@ -677,7 +709,8 @@ def run_profile(name, vw, widths, offsets, shape, seed, amp, errTol=1e-6, offEq=
         d = dict(k=k, T=float(T[k]), v=float(v[k]), path=path, r30=r30, r33=r33, w=w,
                  tmin=rp["tmin"], fmin_rel=rp["fmin"] / abs(c2),
                  # size of what was supplied on top of the equilibrium problem, in units of |c2|
-                 pert_rel=(abs(o30) + abs(o33)) / abs(c2))
+                 pert_rel=(abs(o30) + abs(o33)) / abs(c2),
+                 kin_rel=0.5 * float(np.sum(dp ** 2)) / abs(c2))
         if path == "root":
             d.update(bracket=rp["bracket"], fa=rp["fa"], fb=rp["fb"], root=rp["root"],
                      root_err=abs(rp["root"] - rp["ref"]), root_ref=rp["ref"],
@@ -717,6 +750,8 @@ def tol_cons(errTol):
     harness' own finite-difference enthalpy"""
     return max(2 * errTol, 1e-5)
 FINDING_KEY = "success-without-root"
+JUNCTION_MAX = 0.1       # larger defects of the matching are not accepted as an excuse
+HYP_MAX_FRACTION = 0.08  # of the profiles may have hypotheses (Hydrodynamics/Thermodynamics) fail
 
 
 def registered(ctx, key):
@@ -774,6 +809,8 @@ def judge(ctx, name, vw, widths, offsets, shape, seed, amp, res, stats, errTol=1
                            res["success"], [c[1] > 0 for c in calls], tag, vw), rep,
                        key="success-flag-semantics")
     junction_bad = bool({"junction T30", "junction T33"} & hyp_bad)
+    if hyp_bad:
+        stats["hyp_bad_profiles"] = stats.get("hyp_bad_profiles", 0) + 1
     if not res["success"]:
         # the property is conditional on success: nothing more is claimed for this profile
         stats["nosuccess"] = stats.get("nosuccess", 0) + 1
@@ -834,8 +871,10 @@ def judge(ctx, name, vw, widths, offsets, shape, seed, amp, res, stats, errTol=1
             # minimum cannot exceed what was put on top of it: the supplied stress |Tout30| +
             # |Tout33| plus the measured defects of the junction conditions. Anything larger
             # (in particular any residual without moments and with good matching) is a VIOLATION.
-            cap = 1.05 * (d["pert_rel"] + abs(h["j1"]) * abs(res["c1"] / res["c2"]) + abs(h["j2"])) \
-                + TOL_CONS
+            # ... nor the gradient energy 1/2 phi'^2 of the wall shape that was imposed (thin walls).
+            # Measured junction defects are admitted up to JUNCTION_MAX only (B8).
+            cap = 1.05 * (d["pert_rel"] + d["kin_rel"] + min(JUNCTION_MAX, abs(h["j1"])) *
+                          abs(res["c1"] / res["c2"]) + min(JUNCTION_MAX, abs(h["j2"]))) + TOL_CONS
             if d["path"] == "early" and 0 < d["fmin_rel"] <= cap and \
                     abs(d["r33"] - d["fmin_rel"]) <= TOL_CONS:
                 stats.setdefault("finding", []).append(dict(rep, k=d["k"], r33=d["r33"],
@@ -976,9 +1015,24 @@ def direct_validation(ctx):
     first_of = {}
     for name, vw in plan:
         first_of.setdefault(name, (name, vw))
+    # directed thin wall (inside the EOM's own bounds 0.1-100/Tn): no-root points caused by the
+    # gradient energy alone -- same mechanism as the registered success-without-root
+    resd = run_profile("xSM_BM1", 0.5983, [1.0, 1.0], [0.0, 0.0], "none", 1, 0.0)
+    if not resd.get("nohydro"):
+        ctx.count("directed_thin_wall", nontrivial=False)
+        judge(ctx, "xSM_BM1", 0.5983, [1.0, 1.0], [0.0, 0.0], "none", 1, 0.0, resd, stats)
     for name, vw in plan:
-        widths = [round(rng.uniform(3.0, 8.0), 3), round(rng.uniform(3.0, 8.0), 3)]
-        offsets = [0.0, round(rng.uniform(-0.3, 0.3), 3)]
+        # wall shapes: mostly 3-8/Tn, but also thin (0.15-2/Tn) and thick (20-60/Tn, large
+        # offsets) walls -- the EOM itself allows widths 0.1-100/Tn and offsets +-10
+        u = rng.random()
+        if u < 0.7:
+            lo, hi, omax = 3.0, 8.0, 0.3
+        elif u < 0.85:
+            lo, hi, omax = 0.15, 2.0, 2.0
+        else:
+            lo, hi, omax = 20.0, 60.0, 5.0
+        widths = [round(rng.uniform(lo, hi), 3), round(rng.uniform(lo, hi), 3)]
+        offsets = [0.0, round(rng.uniform(-omax, omax), 3)]
         for shape in ("none", "bump", "flat"):
             seed = rng.randint(0, 10 ** 9)
             amp = 10 ** rng.uniform(-4, -2.7) if shape != "none" else 0.0
@@ -1025,6 +1079,13 @@ def direct_validation(ctx):
                                 Tp_minus_Tn_rel=(res["Tp"] - res["Tn"]) / res["Tn"],
                                 worst=[stats.get("worst30"), stats.get("worst33")]))
     ctx.cov["asymptote_hypotheses_not_met"] = stats.get("hyp_bad", 0)
+    nprof = max(1, ctx.cov["correspondence"].get("profile", 0))
+    nbadp = stats.get("hyp_bad_profiles", 0)
+    ctx.cov["profiles_with_failed_hypotheses"] = nbadp
+    if nbadp > max(4, HYP_MAX_FRACTION * nprof):
+        ctx.broken.append("hypotheses: %d of %d profiles have V=-p, w=-T dV/dT or the junction "
+                          "conditions violated (Thermodynamics/Hydrodynamics): the asymptote "
+                          "clause would be switched off too often" % (nbadp, nprof))
     ctx.cov["profiles_without_success_nothing_claimed"] = stats.get("nosuccess", 0)
     ctx.log("direct validation: %d profiles;" % ctx.cov["correspondence"].get("profile", 0),
             "worst |dT30|/|c1| = %.2e, worst |dT33|/|c2| (conserving "
@@ -1034,24 +1095,21 @@ def direct_validation(ctx):
     ctx.log("worst conserving T33 residual at", stats.get("worst33_where"),
             "; worst asymptote at", stats.get("worst_asym_where"))
     f2 = stats.get("finding2", [])
-    if f2:
-        f2.sort(key=lambda d: (not d.get("recorded_input", False), -d["err"]))
-        top = f2[0]
+    f2.sort(key=lambda d: (not d.get("recorded_input", False), -d["err"]))
+    ctx.cov["finding_detonation_wrong_root"] = dict(count=len(f2), worst=f2[0] if f2 else None)
+    for top in f2:
         what = ("detonation whose v- lies between the equilibrium and the fixed-field sound "
                 "speed: the hydrodynamic T-=%.8g is ABOVE the minimiser %.8g of the Eq.(20) LHS "
                 "behind the wall, the detonation rule takes the root below it and the profile "
                 "tends to (T=%.8g, v=%.6g) instead of (T-, -v-=%.6g); T30/T33 still conserved "
-                "(model %s vw=%g; %d such profiles)" % (
+                "(model %s vw=%g%s)" % (
                     top["Tminus"], top["minimiser_back"], top["T_back"], top["v_back"],
-                    -top["vminus"], top["model"], top["vw"], len(f2)))
-        ctx.cov["finding_detonation_wrong_root"] = dict(count=len(f2), worst=top)
-        ctx.write("finding_detonation_wrong_root.json", json.dumps(top, indent=1, default=float))
+                    -top["vminus"], top["model"], top["vw"],
+                    ", recorded input" if top.get("recorded_input") else ""))
         if registered(ctx, "detonation-root-above-minimiser"):
             ctx.fail_input(what, top, key="detonation-root-above-minimiser")
         else:
             ctx.log("FINDING (not registered in known_findings.json, not counted):", what)
-            ctx.log("  replay: ./check C04 --replay",
-                    os.path.join(ctx.bdir, "finding_detonation_wrong_root.json"))
     # the RECORDED input of the known finding is replayed on every run (deterministic)
     recorded = []
     rpath = os.path.join(vlib.VERIF, "findings", "C04_success_without_root.json")
@@ -1069,7 +1127,8 @@ def direct_validation(ctx):
             for d in res.get("points", []):
                 if d["path"] == "early" and res["success"] and \
                         abs(d["r33"]) > tol_cons(base["errTol"]) and \
-                        0 < d["fmin_rel"] <= 1.05 * d["pert_rel"] + tol_cons(base["errTol"]) and \
+                        0 < d["fmin_rel"] <= (1.05 * (d["pert_rel"] + d["kin_rel"]) +
+                                              tol_cons(base["errTol"])) and \
                         abs(d["r33"] - d["fmin_rel"]) <= tol_cons(base["errTol"]):
                     recorded.append(dict(base, k=d["k"], r33=d["r33"], T=d["T"], v=d["v"],
                                          fmin_rel=d["fmin_rel"]))
@@ -1080,44 +1139,87 @@ def direct_validation(ctx):
         except Exception as ex:                          # noqa: BLE001
             ctx.log("replay of findings/C04_success_without_root.json raised %r" % ex)
     f = stats.get("finding", [])
-    recorded.sort(key=lambda d: -abs(d["r33"]))
-    f.sort(key=lambda d: -abs(d["r33"]))
-    if recorded or f:
-        top = (recorded or f)[0]
-        what = ("hybrid wall with non-zero moments behind the wall: findPlasmaProfilePoint "
-                "returns the position of a POSITIVE minimum of the Eq.(20) LHS (no root) and "
-                "findPlasmaProfile keeps successTemperatureProfile=True; T33 is off by "
-                "%.2e |c2| at grid point %d (model %s vw=%g, %s; %d such points on the recorded "
-                "input, %d more in this run's random profiles)" % (
-                    top["r33"], top["k"], top["model"], top["vw"],
-                    "recorded input findings/C04_success_without_root.json" if recorded
-                    else "random profile", len(recorded), len(f)))
-        ctx.cov["finding_success_without_root"] = dict(recorded_input_points=len(recorded),
-                                                       random_run_points=len(f), worst=top)
-        ctx.write("finding_success_without_root.json", json.dumps(top, indent=1))
-        if registered(ctx, FINDING_KEY):
-            ctx.fail_input(what, top, key=FINDING_KEY)
-        else:
-            ctx.log("FINDING (not registered in known_findings.json, not counted):", what)
-            ctx.log("  replay: ./check C04 --replay",
-                    os.path.join(ctx.bdir, "finding_success_without_root.json"))
-
+    # ONE ctx.fail_input per failing PROFILE (worst point of the profile), recorded input first,
+    # so that ctx.known_count counts profiles and the max_hits cap of the key can bite
+    def by_profile(pts):
+        groups = {}
+        for d in pts:
+            pk = json.dumps({k_: d.get(k_) for k_ in ("model", "vw", "widths", "offsets",
+                                                       "moments", "seed", "errTol", "offEq",
+                                                       "history")}, sort_keys=True, default=str)
+            if pk not in groups or abs(d["r33"]) > abs(groups[pk][0]["r33"]):
+                groups[pk] = (d, groups.get(pk, (None, 0))[1] + 1)
+            else:
+                groups[pk] = (groups[pk][0], groups[pk][1] + 1)
+        return list(groups.values())
+    gr, gf = by_profile(recorded), by_profile(f)
+    ctx.cov["finding_success_without_root"] = dict(
+        recorded_input_points=len(recorded), random_run_points=len(f),
+        recorded_input_profiles=len(gr), random_run_profiles=len(gf),
+        worst=(max(recorded + f, key=lambda d: abs(d["r33"])) if recorded or f else None))
+    for origin, groups in (("recorded input findings/C04_success_without_root.json", gr),
+                           ("random profile", gf)):
+        for top, npts in groups:
+            cause = "supplied moments" if top.get("moments") != "none" else (
+                "junction conditions not met by Hydrodynamics" if top.get("junction_bad")
+                else "gradient energy of the imposed (thin) wall")
+            what = ("findPlasmaProfilePoint returns the position of a POSITIVE minimum of the "
+                    "Eq.(20) LHS (no root; cause: %s) and findPlasmaProfile keeps "
+                    "successTemperatureProfile=True; T33 is off by %.2e |c2| at grid point %d "
+                    "(%d such points in this profile; model %s vw=%g widths %s, %s)" % (
+                        cause, top["r33"], top["k"], npts, top["model"], top["vw"],
+                        top.get("widths"), origin))
+            if registered(ctx, FINDING_KEY):
+                ctx.fail_input(what, top, key=FINDING_KEY)
+            else:
+                ctx.log("FINDING (not registered in known_findings.json, not counted):", what)
 
 
 # =====================================================================================
 # end to end: the profile that wallPressure / solveWall hand back (WallGoResults)
 # =====================================================================================
 
-def run_e2e(name, vw, improve, errTol=1e-5, solve=False):
+def run_e2e(name, vw, improve, errTol=1e-5, solve=False, offeq=None):
     """LTE run of the real EOM.wallPressure (or findWallVelocityDeflagrationHybrid): the
     returned BoltzmannBackground / WallGoResults is judged, and every findPlasmaProfile call
     made on the way is observed from outside (arguments, in their order, and results)."""
-    from WallGo.containers import WallParams
+    from WallGo.containers import WallParams, BoltzmannDeltas
+    from WallGo.results import BoltzmannResults
+    from WallGo.polynomial import Polynomial
     veff, thermo, hydro, grid, eom, TN, nf = build_model(name)
     eom.errTol = errTol
-    eom.includeOffEq = False
+    eom.includeOffEq = bool(offeq)
     eom.forceImproveConvergence = bool(improve)
-    out = dict(kind="e2e", model=name, vw=vw, improve=bool(improve), errTol=errTol, bad=[])
+    out = dict(kind="e2e", model=name, vw=vw, improve=bool(improve), errTol=errTol, bad=[],
+               offeq=offeq)
+    bs = eom.boltzmannSolver
+    ngd = [0]
+    if offeq:
+        # the production configuration (WallGoManager.buildEOM: includeOffEq=True): the real
+        # setBackground / mixing / boosts run; only the collision-file dependent Boltzmann solve
+        # is replaced: delta f = 0 ("zero"), fixed wall-localised moments ("moments"), or
+        # moments that change at every iteration ("varying": drives under-relaxation)
+        def get_deltas_stub(deltaF=None):
+            ngd[0] += 1
+            nP, M1, N1 = len(eom.particles), grid.M - 1, grid.N - 1
+            z = np.asarray(grid.xiValues)
+            if offeq == "zero":
+                D = {k_: np.zeros((nP, M1)) for k_ in ("00", "02", "20", "11")}
+            else:
+                fl = bs.background.fieldProfiles
+                msq = [[float(np.ravel(p_.msqVacuum(fl.getFieldPoint(k_ + 1)))[0])
+                        for k_ in range(M1)] for p_ in eom.particles]
+                D, _ = make_moments(4711 + (ngd[0] if offeq == "varying" else 0), "bump", nP, z,
+                                    5.0 / TN, 3e-4 if offeq == "moments" else 2e-3, msq, TN)
+            poly = lambda a: Polynomial(a, grid, direction=("Array", "z"),
+                                        basis=("Array", "Cardinal"))
+            return BoltzmannResults(
+                deltaF=np.zeros((nP, M1, N1, N1)),
+                Deltas=BoltzmannDeltas(Delta00=poly(D["00"]), Delta02=poly(D["02"]),
+                                       Delta20=poly(D["20"]), Delta11=poly(D["11"])),
+                truncationError=0.0, linearizationCriterion1=np.zeros(nP),
+                linearizationCriterion2=np.zeros(nP))
+        bs.getDeltas = get_deltas_stub
     if eom.forceEnergyConservation is not True:
         out["bad"].append("EOM built with default arguments has forceEnergyConservation=%r" %
                           eom.forceEnergyConservation)
@@ -1130,6 +1232,17 @@ def run_e2e(name, vw, improve, errTol=1e-5, solve=False):
                           success=bool(eom.successTemperatureProfile)))
         return r
     eom.findPlasmaProfile = spy
+    mults = []
+    orig_ipr = eom._intermediatePressureResults           # pylint: disable=protected-access
+
+    def spy_ipr(*a, **k):
+        mults.append(float(k.get("multiplier", a[11] if len(a) > 11 else 1.0)))
+        return orig_ipr(*a, **k)
+    eom._intermediatePressureResults = spy_ipr             # pylint: disable=protected-access
+    saved_rtol, saved_maxit = eom.pressRelErrTol, eom.maxIterations
+    if offeq == "varying":
+        eom.pressRelErrTol = 1e-9        # never converges: under-relaxation / give-up branches run
+        eom.maxIterations = 22
     try:
         if solve:
             res = eom.findWallVelocityDeflagrationHybrid()
@@ -1145,7 +1258,20 @@ def run_e2e(name, vw, improve, errTol=1e-5, solve=False):
             Tprof, vprof, fprof = bg.temperatureProfile, bg.velocityProfile, bg.fieldProfiles
     finally:
         del eom.findPlasmaProfile
+        del eom._intermediatePressureResults                # pylint: disable=protected-access
+        eom.pressRelErrTol, eom.maxIterations = saved_rtol, saved_maxit
         eom.forceImproveConvergence = False
+        eom.includeOffEq = True
+        if offeq:
+            del bs.getDeltas
+    out["getDeltas_calls"] = ngd[0]
+    out["multipliers"] = sorted(set(mults))
+    out["successWallPressure"] = bool(eom.successWallPressure)
+    if not solve:
+        if getattr(bg, "velocityWall", 0) != 0 or bg.velocityMid != hydro.findHydroBoundaries(vw)[4]:
+            out["bad"].append("returned BoltzmannBackground is not in the wall frame "
+                              "(velocityWall=%r, velocityMid=%r)" % (
+                                  getattr(bg, "velocityWall", None), bg.velocityMid))
     c1, c2, Tp, Tm, vMid = hydro.findHydroBoundaries(vw)
     vp, vm, _, _ = hydro.findMatching(vw)
     out.update(branch="detonation" if vw > hydro.vJ else ("hybrid" if vm < vw - 1e-9
@@ -1188,6 +1314,9 @@ def run_e2e(name, vw, improve, errTol=1e-5, solve=False):
     # independent recomputation on what is returned
     r30 = r33 = 0.0
     dphi = last["args"][4] if last is not None else None
+    dl = last["args"][5] if last is not None else None
+    g_ = 1.0 / math.sqrt(1.0 - vMid * vMid)
+    u0_, u3_, b0_, b3_ = g_, g_ * vMid, g_ * vMid, g_
     for k in range(1, n + 1):
         fp = fprof.getFieldPoint(k)
         T, v = float(Tprof[k]), float(vprof[k])
@@ -1196,11 +1325,24 @@ def run_e2e(name, vw, improve, errTol=1e-5, solve=False):
             continue
         w = -T * dVdT(veff, fp, T)
         g2 = 1.0 / (1.0 - v * v)
-        r30 = max(r30, abs(w * g2 * v - c1) / abs(c1))
+        o30 = o33 = 0.0
+        if dl is not None:
+            # out-of-equilibrium stress of the moments handed to that call, by the boost formula
+            # (theorem deltaToTmunu_is_boost), not by deltaToTmunu
+            for i_, p_ in enumerate(eom.particles):
+                d20, d02, d11 = (float(getattr(dl, nm_).coefficients[i_, k - 1])
+                                 for nm_ in ("Delta20", "Delta02", "Delta11"))
+                o30 += p_.totalDOFs * (d20 * u3_ * u0_ + d02 * b3_ * b0_
+                                       + d11 * (u3_ * b0_ + b3_ * u0_))
+                o33 += p_.totalDOFs * (d20 * u3_ * u3_ + d02 * b3_ * b3_ + 2 * d11 * u3_ * b3_)
+        elif offeq and offeq != "zero":
+            continue
+        r30 = max(r30, abs(w * g2 * v + o30 - c1) / abs(c1))
         if dphi is not None:
             dp = np.asarray(dphi.getFieldPoint(k - 1), dtype=float)
             V = float(np.ravel(veff.evaluate(fp, T))[0])
-            r33 = max(r33, abs(0.5 * float(np.sum(dp ** 2)) - V + w * g2 * v * v - c2) / abs(c2))
+            r33 = max(r33, abs(0.5 * float(np.sum(dp ** 2)) - V + w * g2 * v * v + o33 - c2)
+                      / abs(c2))
     out.update(r30=r30, r33=r33)
     if calls and not calls[-1]["success"]:
         out["skipped"] = "successTemperatureProfile is False"
@@ -1208,12 +1350,16 @@ def run_e2e(name, vw, improve, errTol=1e-5, solve=False):
     if r30 > tol:
         bad.append("T30 of the returned profile off by %.2e |c1|" % r30)
     if r33 > tol:
-        bad.append("T33 of the returned profile off by %.2e |c2|" % r33)
+        if offeq in ("moments", "varying") and out["branch"] != "deflagration":
+            out["skipped_T33"] = ("moments on a hybrid/near-sonic wall: no-root points possible "
+                                  "(registered success-without-root), r33=%.2e" % r33)
+        else:
+            bad.append("T33 of the returned profile off by %.2e |c2|" % r33)
     inside = thermo.TMinLowT <= Tm <= thermo.TMaxLowT and thermo.TMinHighT <= Tp <= thermo.TMaxHighT
     eb = max(abs(Tprof[1] / Tm - 1), abs(vprof[1] + vm))
     ef = max(abs(Tprof[-2] / Tp - 1), abs(vprof[-2] + vp))
     out.update(asym_back=eb, asym_front=ef)
-    if inside and max(eb, ef) > TOL_ASYM:
+    if inside and max(eb, ef) > (TOL_ASYM if offeq in (None, "zero") else 10 * TOL_ASYM):
         bad.append("first/last interior point (T=%.8g v=%.6g | T=%.8g v=%.6g) instead of "
                    "(T-=%.8g, -v-=%.6g | T+=%.8g, -v+=%.6g)" % (
                        Tprof[1], vprof[1], Tprof[-2], vprof[-2], Tm, -vm, Tp, -vp))
@@ -1224,39 +1370,68 @@ def e2e_validation(ctx):
     rng = ctx.rng
     models = ["xSM_BM1", "quartic1_TeV"] if ctx.quick else \
         [m for m in MODELS if MODELS[m].get("tier") != "recorded"]
+    models.append("manager_xSM")
     worst = dict(r30=0.0, r33=0.0, asym=0.0)
+    mults = set()
     for name in models:
         _, thermo, hydro, _, _, TN, _ = build_model(name)
+        if name == "manager_xSM":
+            fl = _CACHE[name + ":built_flags"]
+            ctx.log("EOM built by WallGoManager with Config() defaults:", fl)
+            if fl["forceEnergyConservation"] is not True:
+                ctx.fail_input("WallGoManager.buildEOM with the default configuration builds an "
+                               "EOM with forceEnergyConservation=%r: wallPressure then freezes the "
+                               "plasma profile of the first iteration" %
+                               fl["forceEnergyConservation"],
+                               dict(kind="e2e", model=name, vw=0.4, improve=False),
+                               key="e2e:manager-default")
         cs = math.sqrt(float(thermo.csqLowT(TN)))
         vJ = hydro.vJ
-        for lo, hi in ((0.2, cs - 0.02), (cs + 0.005, min(vJ - 0.005, cs + 0.02)),
-                       (vJ + 0.03, 0.9)):
+        first = name == models[0]
+        for bi, (lo, hi) in enumerate(((0.2, cs - 0.02), (cs + 0.005, min(vJ - 0.005, cs + 0.02)),
+                                        (vJ + 0.03, 0.9))):
             vw = round(rng.uniform(lo, hi), 4)
-            for improve in ((False, True) if (not ctx.quick or name == models[0]) else
-                            (rng.random() < 0.5,)):
+            variants = [(False, None), (True, None)] if (not ctx.quick or first) else \
+                [(rng.random() < 0.5, None)]
+            if name == "manager_xSM":
+                variants = [(False, None)] if ctx.quick and bi != 0 else [(False, None),
+                                                                          (False, "zero")]
+            elif not ctx.quick or first:
+                # production configuration: includeOffEq=True (setBackground, mixing, boosts)
+                variants += [(False, "zero"), (False, "moments")]
+                if not ctx.quick or bi == 2:
+                    variants.append((False, "varying"))
+            for improve, offeq in variants:
+                rep = dict(kind="e2e", model=name, vw=vw, improve=improve, offeq=offeq)
                 try:
-                    out = run_e2e(name, vw, improve)
+                    out = run_e2e(name, vw, improve, offeq=offeq)
                 except Exception as ex:                  # noqa: BLE001
                     import traceback
                     ctx.log("wallPressure raised", traceback.format_exc())
-                    ctx.fail_input("wallPressure raised %r (%s vw=%g)" % (ex, name, vw),
-                                   dict(kind="e2e", model=name, vw=vw, improve=improve),
-                                   key="e2e-raises")
+                    ctx.fail_input("wallPressure raised %r (%s vw=%g offeq=%s)" % (
+                        ex, name, vw, offeq), rep, key="e2e-raises")
                     continue
-                ctx.count("e2e_wallPressure", dict(model=name, vw=vw, improve=improve),
-                          bucket="%s/%s/improve=%s" % (name, out.get("branch"), improve))
-                for k_, f_ in (("r30", "r30"), ("r33", "r33")):
-                    worst[k_] = max(worst[k_], out.get(f_, 0.0))
+                ctx.count("e2e_wallPressure", rep,
+                          bucket="%s/%s/improve=%s/offeq=%s" % (name, out.get("branch"), improve,
+                                                               offeq))
+                mults |= set(out.get("multipliers", []))
+                for k_ in ("r30", "r33"):
+                    worst[k_] = max(worst[k_], out.get(k_, 0.0))
                 worst["asym"] = max(worst["asym"], out.get("asym_back", 0.0),
                                     out.get("asym_front", 0.0))
                 if out["bad"]:
-                    ctx.fail_input("wallPressure(%s, vw=%g, LTE, forceImproveConvergence=%s) "
+                    ctx.fail_input("wallPressure(%s, vw=%g, offeq=%s, forceImproveConvergence=%s) "
                                    "returns a plasma profile that violates the property: %s" % (
-                                       name, vw, improve, "; ".join(out["bad"][:3])),
-                                   dict(kind="e2e", model=name, vw=vw, improve=improve,
-                                        errTol=out["errTol"]), key="e2e:" + out["bad"][0][:24])
+                                       name, vw, offeq, improve, "; ".join(out["bad"][:3])),
+                                   dict(rep, errTol=out["errTol"]),
+                                   key="e2e:" + out["bad"][0][:24])
+    ctx.cov["e2e_multipliers_seen"] = sorted(mults)
+    if not [m for m in mults if m < 1.0]:
+        ctx.broken.append("harness: no wallPressure run reached the under-relaxation branches "
+                          "(multiplier < 1)")
     # one full solve: WallGoResults.temperatureProfile / velocityProfile / fieldProfiles
-    name = "xSM_BM1" if ctx.quick else rng.choice(["xSM_BM1", "quartic1", "quartic1_TeV"])
+    name = "manager_xSM" if ctx.quick else rng.choice(["manager_xSM", "xSM_BM1", "quartic1",
+                                                        "quartic1_TeV"])
     try:
         out = run_e2e(name, None, False, errTol=1e-4, solve=True)
         ctx.count("e2e_solveWall", dict(model=name), bucket=name)
@@ -1313,13 +1488,19 @@ def replay_model_witness(ctx):
 def run(ctx):
     gen_ok = True
     try:
+        import glob
+        package = {}
+        for fpath in sorted(glob.glob(os.path.join(vlib.SRC, "*.py"))):
+            with open(fpath) as fh:
+                package[os.path.basename(fpath)] = fh.read()
         text, info = gen_eom_plasma.generate(vlib.read_src("equationOfMotion.py"),
                                              vlib.read_src("helpers.py"),
-                                             vlib.read_src("hydrodynamics.py"))
+                                             vlib.read_src("hydrodynamics.py"), package=package)
         ctx.write("EomPlasma.v", text, sources=dict(
             files=["src/WallGo/equationOfMotion.py", "src/WallGo/helpers.py",
                    "src/WallGo/hydrodynamics.py"],
             sha=vlib.sha(vlib.read_src("equationOfMotion.py")), spans=info["spans"],
+            facts=info.get("facts"),
             not_modelled=sorted(set(info["ignored"]))))
     except pyrx.TranslateError as e:
         ctx.log("translator failed:", e)
@@ -1361,7 +1542,8 @@ def run(ctx):
 def replay(rep):
     print(json.dumps({k: v for k, v in rep.items() if k not in ("T", "v")}, indent=1))
     if rep.get("kind") == "e2e":
-        out = run_e2e(rep["model"], rep["vw"], rep["improve"], rep.get("errTol", 1e-5))
+        out = run_e2e(rep["model"], rep["vw"], rep["improve"], rep.get("errTol", 1e-5),
+                      solve=rep.get("solve", False), offeq=rep.get("offeq"))
         print(json.dumps({k: v for k, v in out.items() if k != "points"}, indent=1, default=str))
         return 1 if out.get("bad") else 0
     if rep.get("kind") == "profile" or "model" in rep:
